@@ -453,6 +453,7 @@ func c14Run(input string) string {
 	w.keyNames[w.agents["c0"].key] = "k0"
 	S, M1 := w.agents["S"], meds[0]
 	var outs []string
+	var sendDes *service.Destination
 	seq := 0
 	for _, op := range strings.Split(parts[1], ";") {
 		f := strings.Split(op, " ")
@@ -470,24 +471,30 @@ func c14Run(input string) string {
 		case f[0] == "send" && len(f) == 1:
 			id := fmt.Sprintf("m%d", seq)
 			R := w.agents["c0"]
-			des := &service.Destination{RecipientKeys: []string{R.key}, MediaTypeProfiles: []string{mtp}}
-			if nrec == 2 {
-				des.RecipientKeys = append(des.RecipientKeys, w.agents["Rb"].key)
-			}
-			var rks []string
-			for i := 0; i < n; i++ {
-				rks = append(rks, meds[i].key)
-			}
-			first := R
-			if n > 0 {
-				first = meds[n-1]
-			}
-			if profile == "v2" {
-				des.ServiceEndpoint = endpoint.NewDIDCommV2Endpoint([]endpoint.DIDCommV2Endpoint{{URI: first.uri,
-					Accept: []string{mtp}, RoutingKeys: rks}})
-			} else {
-				des.ServiceEndpoint = endpoint.NewDIDCommV1Endpoint(first.uri)
-				des.RoutingKeys = rks
+			// ONE Destination value serves every send of the history (as the destination resolved once from a DID document
+			// does); its key lists are collected with append, so they have spare capacity
+			des := sendDes
+			if des == nil {
+				des = &service.Destination{RecipientKeys: append(make([]string, 0, 8), R.key), MediaTypeProfiles: []string{mtp}}
+				if nrec == 2 {
+					des.RecipientKeys = append(des.RecipientKeys, w.agents["Rb"].key)
+				}
+				rks := make([]string, 0, 8)
+				for i := 0; i < n; i++ {
+					rks = append(rks, meds[i].key)
+				}
+				firstHop := R
+				if n > 0 {
+					firstHop = meds[n-1]
+				}
+				if profile == "v2" {
+					des.ServiceEndpoint = endpoint.NewDIDCommV2Endpoint([]endpoint.DIDCommV2Endpoint{{URI: firstHop.uri,
+						Accept: []string{mtp}, RoutingKeys: rks}})
+				} else {
+					des.ServiceEndpoint = endpoint.NewDIDCommV1Endpoint(firstHop.uri)
+					des.RoutingKeys = rks
+				}
+				sendDes = des
 			}
 			sender := ""
 			if auth {
